@@ -262,7 +262,7 @@ func (l *Lit) SQL() string {
 	}
 	return "NULL"
 }
-func (l *Lit) Eval(JRow) Val     { return l.V }
+func (l *Lit) Eval(JRow) Val      { return l.V }
 func (l *Lit) Slots(map[int]bool) {}
 
 // Cmp is a comparison = != < <= > >= with SQL NULL propagation.
@@ -437,6 +437,7 @@ func (l *Leaf) SQL() string {
 	}
 	return s + ") " + l.Alias
 }
+
 // OutName is the name under which column n of the file is visible outside the leaf. Subquery
 // sides rename their columns (alias-prefixed): octosql's typechecker confuses the unique name of
 // an unqualified subquery column `k1` with a same-named column `b.k1` of the other join side
